@@ -172,9 +172,10 @@ def yearfrac_basis_0(beg, end):
         d2 = 30
 
     # Special fixes for February:
-    elif m1 == 2 and d1 == calendar.monthrange(y1, m1)[1]:
+    elif m1 == 2 and d1 == max_days_in_month(m1, y1):
+        # (for excel february 1900 has 29 days)
         d1 = 30
-        if m2 == 2 and d2 == calendar.monthrange(y2, m2)[1]:
+        if m2 == 2 and d2 == max_days_in_month(m2, y2):
             d2 = 30
 
     return ((d2 + m2 * 30 + y2 * 360) - (d1 + m1 * 30 + y1 * 360)) / 360
@@ -693,6 +694,9 @@ def yearfrac(start_date, end_date, basis=0):
             return NUM_ERROR
     except TypeError:
         return VALUE_ERROR
+
+    # the time of day does not count
+    start_date, end_date = math.floor(start_date), math.floor(end_date)
 
     if start_date > end_date:  # switch dates if start_date > end_date
         start_date, end_date = end_date, start_date
